@@ -193,3 +193,39 @@ Proof.
     apply G0. apply good_seg_new. }
   destruct G as [W E]. rewrite (decode_encode_segment _ W). rewrite E. reflexivity.
 Qed.
+
+(* ---- rules made of valid parts: the hypothesis of ok_fbop for AddRule, call by call ---- *)
+Definition ok_clause (c : clause) : Prop := wf_clause c /\ canon_clause c = c.
+Definition ok_rbop (o : rbop) : Prop :=
+  match o with
+  | RClauses l => Forall ok_clause l
+  | RVorr vr => wf_vorr vr /\ canon_vorr vr = vr
+  | _ => True
+  end.
+
+Lemma map_fix_of_forall {A} (g : A -> A) (Q : A -> Prop) l : (forall x, Q x -> g x = x) -> Forall Q l -> map g l = l.
+Proof. intros Hg H. induction H as [|x l Hx H IH]; cbn; [reflexivity|]. rewrite (Hg x Hx), IH. reflexivity. Qed.
+
+Theorem rule_of_valid_parts ops : Forall ok_rbop ops -> wf_rule (rb_build ops) /\ canon_rule (rb_build ops) = rb_build ops.
+Proof.
+  intro H. unfold rb_build.
+  assert (G : forall r, (wf_rule r /\ canon_rule r = r) -> wf_rule (fold_left rb_apply ops r) /\ canon_rule (fold_left rb_apply ops r) = fold_left rb_apply ops r).
+  { induction H as [|o ops Ho H IH]; intros r Hr; cbn [fold_left]; [exact Hr|]. apply IH.
+    destruct r as [vr id cls tr]. destruct Hr as [[Wv Wc] C]. unfold canon_rule in C. cbn in C. injection C as Cv Cc.
+    cbn [ru_vr ru_clauses] in *.
+    destruct o as [l|x|b|vr']; cbn [rb_apply ru_vr ru_id ru_clauses ru_track]; cbn [ok_rbop] in Ho.
+    - split; [split; [exact Wv|]|].
+      + cbn. clear -Ho. induction Ho as [|c l [Hc _] _ IHl]; constructor; assumption.
+      + unfold canon_rule. cbn. rewrite Cv. f_equal. apply (map_fix_of_forall canon_clause ok_clause); [intros c [_ E]; exact E | exact Ho].
+    - split; [split; assumption|]. unfold canon_rule. cbn. congruence.
+    - split; [split; assumption|]. unfold canon_rule. cbn. congruence.
+    - destruct Ho as [Hw Hc]. split; [split; assumption|]. unfold canon_rule. cbn. congruence. }
+  apply G. unfold rule0. split; [|reflexivity]. split; [|constructor].
+  cbn. split; [apply in64o_none|]. unfold wf_rollout. cbn. refine (conj (Forall_nil _) (conj in64o_none _)). reflexivity.
+Qed.
+
+(* the clause helpers give valid parts whenever the attribute name survives the wire format for the clause's kind *)
+Lemma clause_helper_ok kind attr op vs : ref_rt (new_literal_ref attr) kind -> ok_clause (b_clause kind attr op vs).
+Proof. intro H. split; [exact H | reflexivity]. Qed.
+Lemma negate_ok c : ok_clause c -> ok_clause (b_negate c).
+Proof. intros [W C]. split; [exact W|]. unfold canon_clause in *. destruct c. cbn in *. injection C as ->. reflexivity. Qed.
